@@ -73,6 +73,9 @@ func catVT(cat string) string {
 	return ""
 }
 
+// mapCat: the write category of insertions into / deletions from maps of a type.
+func mapCat(t types.Type) string { return "M:|" + typeKey(t.Underlying()) }
+
 // storeCats returns the categories written by a store to addr of a value of type vt.
 func storeCats(addr ssa.Value, vt types.Type) []string {
 	var res []string
@@ -131,7 +134,14 @@ func newMemInfo(w *World) *memInfo {
 						for _, c := range storeCats(x.Addr, x.Val.Type()) {
 							bitSet(&set, m.id(c))
 						}
+					case *ssa.MapUpdate:
+						bitSet(&set, m.id(mapCat(x.Map.Type())))
 					case ssa.CallInstruction:
+						if bi, ok := x.Common().Value.(*ssa.Builtin); ok && (bi.Name() == "delete" || bi.Name() == "clear") && len(x.Common().Args) > 0 {
+							if _, isMap := x.Common().Args[0].Type().Underlying().(*types.Map); isMap {
+								bitSet(&set, m.id(mapCat(x.Common().Args[0].Type())))
+							}
+						}
 						if c := x.Common().StaticCallee(); c != nil && c.Pkg != nil {
 							p := c.Pkg.Pkg.Path()
 							if p == "encoding/binary" && c.Name() == "Read" || p == "encoding/json" || p == "reflect" {
@@ -273,10 +283,11 @@ func privateCell(v ssa.Value) bool {
 // Phase 2 propagates location contents like constant propagation; a
 // location that is not tracked holds "its contents since the last write",
 // a value named by (location, last-write places).
-func canonLoads(fn *ssa.Function, m *memInfo) map[*ssa.UnOp]ssa.Value {
+func canonLoads(fn *ssa.Function, m *memInfo) (map[*ssa.UnOp]ssa.Value, map[*ssa.Call]ssa.Value) {
 	canon := map[*ssa.UnOp]ssa.Value{}
+	canonLen := map[*ssa.Call]ssa.Value{}
 	if m == nil || len(fn.Blocks) == 0 {
-		return canon
+		return canon, canonLen
 	}
 	nb := len(fn.Blocks)
 	order := fn.DomPreorder()
@@ -293,10 +304,17 @@ func canonLoads(fn *ssa.Function, m *memInfo) map[*ssa.UnOp]ssa.Value {
 			for _, c := range storeCats(x.Addr, x.Val.Type()) {
 				res = append(res, wr{c, true})
 			}
+		case *ssa.MapUpdate:
+			res = append(res, wr{mapCat(x.Map.Type()), false})
 		case ssa.CallInstruction:
 			com := x.Common()
-			if _, ok := com.Value.(*ssa.Builtin); ok {
-				return nil
+			if bi, ok := com.Value.(*ssa.Builtin); ok {
+				if (bi.Name() == "delete" || bi.Name() == "clear") && len(com.Args) > 0 {
+					if _, isMap := com.Args[0].Type().Underlying().(*types.Map); isMap {
+						res = append(res, wr{mapCat(com.Args[0].Type()), false})
+					}
+				}
+				return res
 			}
 			callees := m.w.Callees(x)
 			if len(callees) == 0 {
@@ -418,7 +436,7 @@ func canonLoads(fn *ssa.Function, m *memInfo) map[*ssa.UnOp]ssa.Value {
 			break
 		}
 		if iter == 199 {
-			return canon // no identification
+			return canon, canonLen // no identification
 		}
 	}
 	versionOf := func(killed map[string]string, cat string) string {
@@ -544,6 +562,23 @@ func canonLoads(fn *ssa.Function, m *memInfo) map[*ssa.UnOp]ssa.Value {
 					st[k] = memEntry{cat, ev, privateCell(x.X)}
 				}
 				continue
+			}
+			if lc, ok := ins.(*ssa.Call); ok {
+				if bi, isB := lc.Call.Value.(*ssa.Builtin); isB && bi.Name() == "len" {
+					if _, isMap := lc.Call.Args[0].Type().Underlying().(*types.Map); isMap {
+						k := "ML@" + valID(resolve(lc.Call.Args[0]))
+						cat := mapCat(lc.Call.Args[0].Type())
+						keyCat[k], keyTyp[k] = cat, lc.Type()
+						if e, ok := st[k]; ok {
+							canonLen[lc] = e.val
+						} else {
+							ev := sinceVal(k, versionOf(killed, cat))
+							canonLen[lc] = ev
+							st[k] = memEntry{cat, ev, false}
+						}
+						continue
+					}
+				}
 			}
 			ws := insWrites[ins]
 			if len(ws) == 0 {
@@ -683,7 +718,7 @@ func canonLoads(fn *ssa.Function, m *memInfo) map[*ssa.UnOp]ssa.Value {
 			if os.Getenv("SFNT_MEMDEBUG") != "" {
 				fmt.Println("memory analysis: no fixpoint in", fnName(fn))
 			}
-			return map[*ssa.UnOp]ssa.Value{}
+			return map[*ssa.UnOp]ssa.Value{}, map[*ssa.Call]ssa.Value{}
 		}
 	}
 	// a merge value is usable where its block dominates
@@ -694,7 +729,14 @@ func canonLoads(fn *ssa.Function, m *memInfo) map[*ssa.UnOp]ssa.Value {
 			canon[ld] = ld
 		}
 	}
-	return canon
+	for lc, rep := range canonLen {
+		if r, ok := rep.(*memVal); ok && r.blk != nil && r.blk != lc.Block() && !r.blk.Dominates(lc.Block()) {
+			canonLen[lc] = lc
+		} else if r, ok := rep.(ssa.Instruction); ok && r.Block() != nil && r.Block() != lc.Block() && !r.Block().Dominates(lc.Block()) {
+			canonLen[lc] = lc
+		}
+	}
+	return canon, canonLen
 }
 
 func addrKeyRec(a *ssa.FieldAddr, resolve func(ssa.Value) ssa.Value) (string, bool) {
